@@ -189,6 +189,28 @@ def keypair_c(which, tol, deep, v1, v2):
     return out
 
 
+@deal.ensure(lambda which, tol, deep, dflt, result: result['raised'] is None and result['same_key'],
+             message='default_omitted_or_spelled_out: with a tolerance, omitting a float default and spelling it out give the same key')
+def defaultkey_c(which, tol, deep, dflt):
+    import klepto
+    import klepto.safe
+    from klepto.keymaps import keymap as rawmap
+    ns = {}
+    exec("def f(x, y=%r):\n    return (x, y)\n" % dflt, ns)
+    f = ns['f']
+    out = {'raised': None, 'same_key': None}
+    try:
+        if which == 'keygen':
+            kf = klepto.keygen(tol=tol, deep=deep, keymap=rawmap())(f)
+        else:
+            dec = {'inf_cache': klepto.inf_cache, 'lru_cache': klepto.lru_cache, 'safe.lfu_cache': klepto.safe.lfu_cache}[which]
+            kf = dec(tol=tol, deep=deep, keymap=rawmap())(f).key
+        out['same_key'] = (kf(1) == kf(1, dflt)) and (kf(1) == kf(1, y=dflt))
+    except Exception as e:      # noqa
+        out['raised'] = e
+    return out
+
+
 # ---- units -------------------------------------------------------------------------------------------------
 def units(tier, seed):
     depth = 3 if tier == 'thorough' else 2
@@ -263,6 +285,20 @@ def run_unit(unit):
                                                   'message': '%s(tol=%r, deep=%r): calls with %r and %r: %s' % (which, tol, deep, v1, v2, e.message),
                                                   'witness': {'unit': 'keys', 'which': which, 'deep': deep, 'depth': depth, 'index': i, 'tol': tol,
                                                               'partner': partners(v1).index(v2)}})
+        for tol in TOLS:
+            for dflt in (1.26, 7, 'ab', 1.5):
+                out['evaluations'] += 1
+                try:
+                    defaultkey_c(which, tol, deep, dflt)
+                except deal.PostContractError as e:
+                    clause = str(e.message).split(':')[0]
+                    klass = 'a float default is mixed into the key after the rounding step (omitted default unrounded, spelled-out default rounded)'
+                    if (clause, klass) in seen:
+                        continue
+                    seen.add((clause, klass))
+                    out['violations'].append({'clause': clause, 'klass': klass,
+                                              'message': '%s(tol=%r, deep=%r) on def f(x, y=%r): key(f(1)) != key(f(1, %r))' % (which, tol, deep, dflt, dflt),
+                                              'witness': {'unit': 'default', 'which': which, 'deep': deep, 'tol': tol, 'dflt': dflt}})
         out['samples'].append({'decorator': which, 'deep': deep, 'values': len(vals)})
     return out
 
@@ -283,6 +319,9 @@ def partners(v):
 
 def replay(w):
     try:
+        if w['unit'] == 'default':
+            defaultkey_c(w['which'], w['tol'], w['deep'], w['dflt'])
+            return False, 'keys agree'
         if w['unit'] == 'rounder':
             v = structures(w['depth'])[w['index']]
             rounder_c(w['kind'], w['tol'], v, w['as_kw'])
